@@ -147,11 +147,14 @@ theorem flatMap_encode_length (little : Bool) (w : Nat) (vs : List Nat) :
   | nil => simp
   | cons v vs ih => simp [List.flatMap_cons, encodeItem_length, ih, Nat.add_mul, Nat.add_comm]
 
+/-- what pydap stores as the `checksum` attribute: the sender's CRC word read in the other byte order -/
+def swapped (little : Bool) (ck : Nat) : Nat := decodeItem (!little) (encodeItem little 4 ck)
+
 def SentOk (s : Sent) : Prop := (∀ v ∈ s.values, v < 256 ^ s.itemsize) ∧ s.checksum < 256 ^ 4
 
 theorem unpackVars_serialise (little : Bool) (ss : List Sent) (h : ∀ s ∈ ss, SentOk s) :
     unpackVars little (ss.map Sent.layout) (serialise little ss)
-      = .ok (ss.map fun s => ⟨s.values, some s.checksum⟩) := by
+      = .ok (ss.map fun s => ⟨s.values, some (swapped little s.checksum)⟩) := by
   induction ss with
   | nil => rfl
   | cons s ss ih =>
@@ -171,7 +174,7 @@ theorem unpackVars_serialise (little : Bool) (ss : List Sent) (h : ∀ s ∈ ss,
     rw [hd, ih (fun x hx => h x (by simp [hx]))]
     have e := items_flatMap little s.itemsize s.values []
     simp only [List.append_nil] at e
-    rw [e, decode_encodeItem, Nat.mod_eq_of_lt hs.2]
+    rw [e]
     have : List.map (decodeItem little) (List.map (encodeItem little s.itemsize) s.values) = s.values := by
       rw [List.map_map]
       conv => rhs; rw [← List.map_id s.values]
@@ -196,7 +199,7 @@ theorem unpackResponse_encode (little : Bool) (layoutsOf : Bytes → Except Err 
     (hd : dmr.length < 16777216) (hl : layoutsOf dmr = .ok (ss.map Sent.layout))
     (hs : ∀ s ∈ ss, SentOk s) (hc : SmallChunks chunks) (hp : chunks.flatten = serialise little ss) :
     unpackResponse true layoutsOf (encodeResponse little dmr chunks)
-      = .ok (dmr, little, ss.map fun s => ⟨s.values, some s.checksum⟩) := by
+      = .ok (dmr, little, ss.map fun s => ⟨s.values, some (swapped little s.checksum)⟩) := by
   unfold unpackResponse encodeResponse
   rw [safeDmrAndData_encode false false little dmr _ hd]
   have h2 := stream2bytearray_encode little chunks hc [] (fun _ => rfl)
